@@ -308,3 +308,4 @@ def run(eng, ctx):
                 found.append(f"default {show(d)[:30]}")
         ctx.check(okd, "C09.D4", mb.qualname, norm(e.node)[:60], expected=f"default subscriptable like the table values, {NA!r} at each used position", found=f"default {show(d)}: " + ", ".join(found), **loc)
     ctx.instance(".get sites in the map builder", nget, 2)
+    SH.decoder_reads_no_mutable_state(eng, ctx, "C13.D1")
